@@ -387,8 +387,23 @@ def rule_one_key(ctx: Ctx) -> None:  # noqa: C901, PLR0915
                 ranges.append((i, norm(ssd.resolve(x.args[0])).replace(" ", "")))
             if isinstance(x, ast.Subscript) and isinstance(x.slice, ast.Slice) and x.slice.lower is not None:
                 ranges.append((i, norm(ssd.resolve(x.slice.lower)).replace(" ", "")))
-    following = [r for r in ranges if r[1] == f"{r[0]}+1"]
-    including = [r for r in ranges if r[1] == r[0]]
+    # where the loop variable starts: `for i in range(len(shape))` counts the axis itself, `for n in range(1, len(shape) + 1)` the number
+    # of axes up to and including it (shape[n:] are then the FOLLOWING axes)
+    starts: dict[str, int | None] = {}
+    for o in outer:
+        it_ = o["iter"]
+        st_: int | None = None
+        if isinstance(it_, ast.Call) and dotted(it_.func) == "range":
+            if len(it_.args) == 1:
+                st_ = 0
+            elif isinstance(it_.args[0], ast.Constant) and isinstance(it_.args[0].value, int):
+                st_ = it_.args[0].value
+        elif isinstance(it_, ast.Call) and dotted(it_.func) == "enumerate":
+            st_ = 0
+        starts[o["target"].id] = st_
+    known = [r for r in ranges if starts.get(r[0]) in (0, 1)]
+    following = [r for r in known if (r[1] == f"{r[0]}+1" and starts[r[0]] == 0) or (r[1] == r[0] and starts[r[0]] == 1)]
+    including = [r for r in known if r[1] == r[0] and starts[r[0]] == 0]
     ctx.tri("6-one-key", sts, sts.node, bool(following) and not including, bool(including), "stride_i = product of the FOLLOWING dimensions (row-major)",
             "the stride of an axis includes the axis' own dimension: keys are not the row-major coordinates", "stride computation not recognised", key="row-major-strides")
 
